@@ -148,7 +148,19 @@ func c06E5(r *core.R) {
 				return true
 			})
 		}
-		if gate == nil {
+		if gl := c06FindGateLoop(r, m, hdr, blobData, fromRequired); gate == nil && gl != nil {
+			// the general form: any loop over the features, failure reported as an error or through result values
+			ok := c06GateProtects(r, m, hdr, gl, 0)
+			how := "whose body returns an error when the capability lookup of a feature fails"
+			bad := "a success return of the header decoder is reachable without passing the required-features loop"
+			if ok && !gl.direct {
+				how = "whose body reports a failed capability lookup through its results, which make every caller return an error"
+				if why := c06SignalGate(r, m, hdr, gl); why != "" {
+					ok, bad = false, why
+				}
+			}
+			r.Check(ok, c, gl.loop.Pos(), "every success return of the header decoder lies behind the exhausted exit of the required-features loop (in "+gl.fi.Name()+"), "+how, bad)
+		} else if gate == nil {
 			r.Bad(c, hdr.Decl.Pos(), "no loop over the header's required_features that returns an error for a feature the parser does not support: files needing unsupported features are decoded anyway")
 		} else {
 			// every success return of the header decoder passes the exhausted exit of the gate loop (directly, or through
@@ -304,6 +316,9 @@ func c06BlockType(r *core.R, m *pbfModel, fs *token.FileSet) {
 				continue
 			}
 			x := ast.Unparen(pr[0])
+			if c06IsHeaderType(m, scope, x, 0) {
+				return true, neq
+			}
 			if scope != nil {
 				x = c01Expand(info, scope, x)
 			}
